@@ -435,6 +435,10 @@ val dA_SUBBLOCK : n
 
 val dA_MAX_DIST : n
 
+val pFS_SHIFT : n
+
+val pFS_SHIFT_HQ : n
+
 val lINE_SYMS : n
 
 val lINE_SYMS_nat : nat
@@ -1030,3 +1034,52 @@ val wt : ty -> value -> bool
 val encode : ty -> value -> n list
 
 val decode : ty -> n list -> (value * n list) option
+
+type wtit = { it_i : n; it_end : n }
+
+val wtit_new : n -> wtit
+
+val wtit_next : (n -> n outcome) -> wtit -> (n option * wtit) outcome
+
+val wtit_next_back : (n -> n outcome) -> wtit -> (n option * wtit) outcome
+
+val wtit_len : wtit -> n outcome
+
+type pfsupport = { pf_samples : rsnarrow list; pf_shift : n }
+
+type pfs_state = { ps_counters : n list; ps_bits : bool list;
+                   ps_bvs : bool list list }
+
+val pfs_step : n -> n -> pfs_state -> n -> n -> pfs_state outcome
+
+val pfs_loop : n -> n -> pfs_state -> n -> n list -> pfs_state outcome
+
+val pfs_new : n list -> n -> pfsupport outcome
+
+val pfs_approx_rank : pfsupport -> n -> n -> n outcome
+
+val qwt_pfs_walk :
+  n -> rsq list -> pfsupport list -> n -> n -> n -> n -> n -> nat -> (n * n)
+  outcome
+
+val qwt_pfs_estimate : n -> qwt -> pfsupport list -> n -> n -> n outcome
+
+val qwt_pfs_levels : n -> n list -> n -> nat -> pfsupport list outcome
+
+val qwt_pfs_new : n -> n list -> pfsupport list outcome
+
+val qwt_rank_prefetch_pfs :
+  n -> n -> qwt -> pfsupport list -> n -> n -> n option outcome
+
+val hq_pfs_walk :
+  rsq list -> pfsupport list -> n -> n -> n -> n -> n -> nat -> (n * n)
+  outcome
+
+val hq_pfs_estimate : hqwt -> pfsupport list -> n -> n -> n outcome
+
+val hq_pfs_levels : n list -> pcode list -> n -> nat -> pfsupport list outcome
+
+val hq_pfs_new : n list -> pcode list -> pfsupport list outcome
+
+val hq_rank_prefetch_pfs :
+  n -> hqwt -> pfsupport list -> n -> n -> n option outcome
